@@ -466,6 +466,45 @@ func c12SpecForms(rt *rapid.T) {
 		if err != nil || wasNull || !gen.EqualAV(u, want, got) {
 			rt.Fatalf("UDT value with %d of %d fields decodes to %s, want %s (wasNull=%v err=%v)", keep, n, gen.RenderAV(u, got), gen.RenderAV(u, want), wasNull, err)
 		}
+		// the untyped result names every field of the type, the missing ones with a nil value - nothing else
+		if m, ok := any.(map[string]interface{}); ok {
+			if len(m) != n {
+				rt.Fatalf("UDT value with %d of %d fields decodes to a map with %d keys: %v", keep, n, len(m), m)
+			}
+			for i, name := range names {
+				val, present := m[name]
+				if !present || (i >= keep && val != nil) {
+					rt.Fatalf("UDT value with %d of %d fields: field %q of the untyped result is present=%v value=%v (missing fields are null)", keep, n, name, present, val)
+				}
+			}
+		}
+		// a typed destination that already holds another (complete) value: every field the value does not carry becomes null
+		if rep.Kind == "struct" || rep.Kind == "ifaceslice" || rep.Kind == "ifacemap" || rep.Kind == "slice" {
+			prev := gen.DrawAV(rt, u, rep, v, false, "previous")
+			dest := reflect.New(topDestType(rep))
+			old := gen.ToGo(prev, u, rep)
+			for old.Kind() == reflect.Ptr && old.Type() != dest.Type() && !old.IsNil() {
+				old = old.Elem()
+			}
+			if old.Type() == dest.Type().Elem() {
+				dest.Elem().Set(old)
+				typedWant := gen.AV{Elems: make([]gen.AV, n)}
+				nullable := true
+				for i := range typedWant.Elems {
+					typedWant.Elems[i] = want.Elems[i]
+					if i >= keep && rep.Fields != nil && !rep.Fields[i].Nillable() {
+						nullable = false // a plain value field cannot show null: it is zeroed, which FromGo cannot tell from a zero value
+					}
+				}
+				if nullable && rep.Kind != "ifacemap" {
+					wasNull, fail := decodeInto(codec, spec, dest.Interface(), v)
+					got2, err := gen.FromGo(dest.Elem(), u)
+					if fail != "" || wasNull || err != nil || !gen.EqualAV(u, typedWant, got2) {
+						rt.Fatalf("UDT value with %d of %d fields decoded into a %v that already held %s yields %s (wasNull=%v %s %v), want %s", keep, n, dest.Type(), clip200(gen.RenderAV(u, prev)), clip200(gen.RenderAV(u, got2)), wasNull, fail, err, clip200(gen.RenderAV(u, typedWant)))
+					}
+				}
+			}
+		}
 		rec.Case(keep < n, stats.Hash(spec, []byte(u.AsCql())), func() string {
 			return fmt.Sprintf("udt %s with %d of %d fields: %x", u.AsCql(), keep, n, clipBytes(spec))
 		}, "form:udt-short", fmt.Sprintf("keep:%d/%d", keep, n))
